@@ -4,4 +4,5 @@ import AM.Model.MatcherPrint
 import AM.Model.MatcherClassic
 import AM.Model.MatcherUTF8
 import AM.Model.MatcherCompat
+import AM.Model.MatcherRegex
 import AM.Props.C16
